@@ -745,15 +745,17 @@ class Context:
 
     def _plugins_are_cached(self, targets: ty.Union[ty.Tuple[str], ty.List[str]]) -> bool:
         """Check if all the requested targets are in the _fixed_plugin_cache."""
-        if self.context_config["use_per_run_defaults"] or self._fixed_plugin_cache is None:
+        # Look at the cache through one local reference: other threads
+        # (multi_run workers share this context) may replace it meanwhile.
+        cache = self._fixed_plugin_cache
+        if self.context_config["use_per_run_defaults"] or cache is None:
             # There is no point in caching if plugins (lineage) can
             # change per run or the cache is empty.
             return False
 
-        context_hash = self._context_hash()
-        if context_hash not in self._fixed_plugin_cache:
+        plugin_cache = cache.get(self._context_hash())
+        if plugin_cache is None:
             return False
-        plugin_cache = self._fixed_plugin_cache[context_hash]
         return all([t in plugin_cache for t in targets])
 
     def _plugins_to_cache(self, plugins: dict) -> None:
@@ -761,16 +763,19 @@ class Context:
             # There is no point in caching if plugins (lineage) can change per run
             return
         context_hash = self._context_hash()
-        if self._fixed_plugin_cache is None:
-            self._fixed_plugin_cache = {context_hash: dict()}
-        elif context_hash not in self._fixed_plugin_cache:
+        cache = self._fixed_plugin_cache
+        if cache is None or context_hash not in cache:
             # Create a new cache every time the hash is not matching to
             # save memory. If a config changes, building the cache again
             # should be fast, we just need to track which cache to use.
-            self.log.info("Replacing context._fixed_plugin_cache since plugins/versions changed")
-            self._fixed_plugin_cache = {context_hash: dict()}
+            if cache is not None:
+                self.log.info(
+                    "Replacing context._fixed_plugin_cache since plugins/versions changed"
+                )
+            cache = {context_hash: dict()}
+            self._fixed_plugin_cache = cache
         for target, plugin in plugins.items():
-            self._fixed_plugin_cache[context_hash][target] = plugin
+            cache[context_hash][target] = plugin
 
     def __get_requested_plugins_from_cache(
         self,
@@ -784,7 +789,9 @@ class Context:
 
         """
         requested_plugins = {}
-        cached_plugins = self._fixed_plugin_cache[self._context_hash()]  # type: ignore
+        # The cache may have been replaced by another thread since the caller
+        # checked it: then nothing is returned and the caller builds the plugin.
+        cached_plugins = (self._fixed_plugin_cache or {}).get(self._context_hash(), {})
         # Iterate over a snapshot: other threads may be adding plugins to the cache
         for target, plugin in list(cached_plugins.items()):
             if target in requested_plugins:
@@ -861,14 +868,18 @@ class Context:
         # Check if plugin for data_type is already cached
         if self._plugins_are_cached((data_type,)):
             cached_plugins = self.__get_requested_plugins_from_cache(run_id, (data_type,))
-            if chunk_number is not None:
-                target_plugin = cached_plugins[data_type].__copy__(True)
-                self.__assign_chunk_number_to_plugin(target_plugin, chunk_number=chunk_number)
-                target_plugin.run_id = run_id
-                target_plugin.fix_dtype()
-            else:
-                target_plugin = cached_plugins[data_type]
-            return target_plugin
+            if data_type in cached_plugins:
+                if chunk_number is not None:
+                    target_plugin = cached_plugins[data_type].__copy__(True)
+                    self.__assign_chunk_number_to_plugin(
+                        target_plugin, chunk_number=chunk_number
+                    )
+                    target_plugin.run_id = run_id
+                    target_plugin.fix_dtype()
+                else:
+                    target_plugin = cached_plugins[data_type]
+                return target_plugin
+            # else: the cache was replaced meanwhile, initialize the plugin below
 
         if data_type not in self._plugin_class_registry:
             raise KeyError(f"No plugin class registered that provides {data_type}")
@@ -2116,17 +2127,13 @@ class Context:
         :return: strax.DataKey of the target
 
         """
+        plugins = None
         if self._plugins_are_cached((target,)):
-            context_hash = self._context_hash()
-            if context_hash in self._fixed_plugin_cache:
-                plugins = self._fixed_plugin_cache[self._context_hash()]
-            else:
-                # This once happened due to temp. plugins, should not happen again
-                self.log.warning(
-                    f"Context hash changed to {context_hash} for {self._plugin_class_registry}?"
-                )
-                plugins = self._get_plugins((target,), run_id)
-        else:
+            plugins = (self._fixed_plugin_cache or {}).get(self._context_hash())
+            if plugins is not None and target not in plugins:
+                # The cache was replaced by another thread since we checked
+                plugins = None
+        if plugins is None:
             plugins = self._get_plugins((target,), run_id)
 
         # Prevent modifying the cached plugin
